@@ -679,6 +679,9 @@ class Predicate(metaclass=abc.ABCMeta):
                 )
             )
 
+        def __reduce__(self):
+            return self.__class__, tuple(self._items.values())
+
         def __and__(self, other: 'dsl.Predicate.Factors') -> 'dsl.Predicate.Factors':
             return self.merge(self, other, And)
 
